@@ -60,7 +60,7 @@ def geff_to_dataframes(
                 for i in range(values.shape[1]):
                     series = pd.Series(values[:, i])
                     if missing is not None and any(missing):
-                        series.mask(missing, inplace=True)
+                        series = series.mask(missing)
                     df_dict[f"{name}_{i}"] = series
 
             elif ndim > 2:
@@ -74,7 +74,7 @@ def geff_to_dataframes(
                 # Data is 1d
                 series = pd.Series(values)
                 if missing is not None and any(missing):
-                    series.mask(missing, inplace=True)
+                    series = series.mask(missing)
                 df_dict[name] = series
 
         dataframes.append(pd.DataFrame(df_dict))
